@@ -210,6 +210,16 @@ def check_C09(tier, seed):
     drive_and_judge(rep, "C09", F.option_matrix_cases(rng, 40 if quick else 600, "mat", "option-matrix"), "matrix", keep)
     rep.exhaustive = True
     rep.notes.append("every shader of the matrix family is generated under all 48 derive/representation vectors plus validation and rustfmt variants")
+    # trait implementations as rustc resolves them on the compiled structs (Rust / Glam representations, real bytemuck / encase / serde)
+    sub = []
+    for i in range(12 if quick else 150):
+        S, has_rt = F.role_shader(rng, big_arrays=False)
+        for j, o in enumerate(F.all_opts(mvs=("rust", "glam"))):
+            if has_rt and (not o["enc"] or o["bmh"]):
+                continue
+            if (i + j) % (2 if quick else 1) == 0:
+                sub.append({"id": "impl-%03d-%02d" % (i, j), "family": "impl-probing", "S": S, "opts": o})
+    compiled_and_judge(rep, "C09", sub, "impls", "shim", {"impls"}, keep=["structs"], enforce="C09R")
     return finish(rep)
 
 
